@@ -1,15 +1,30 @@
 #!/bin/sh
 # usage: tools/seedtest.sh <property id> <patch file> [tier]   — apply a seeded change to /repo, run the check, undo.
 # The evidence file of the property is saved and restored (evidence must come from the unchanged tree).
+#
+# /repo must never keep a seeded change.  The patch in flight is recorded in seeded/IN_FLIGHT (tracked directory, so a snapshot of /verif keeps it; a copy of the patch
+# next to it) BEFORE it is applied and removed only after /repo is clean again; the undo also runs from a trap on
+# EXIT/INT/TERM/HUP.  A run that is killed outright (SIGKILL, sandbox stop) leaves the marker behind: the next seedtest
+# — and tools/seedrecover.sh, and every ./check, which prints a NOTE naming the patch while the marker is there — sees it.
 cd /verif
 PID=$1; PATCH=$(realpath $2); TIER=${3:-quick}
+MARK=seeded/IN_FLIGHT
+mkdir -p build
+if [ -e $MARK ]; then tools/seedrecover.sh || exit 2; fi
 git -C /repo diff --quiet || { echo "repo not clean"; exit 2; }
-cp evidence/$PID.json /tmp/evidence_$PID.bak 2>/dev/null
+cp evidence/$PID.json build/evidence_$PID.bak 2>/dev/null
+undo() {
+  trap - EXIT INT TERM HUP
+  git -C /repo checkout -- . && rm -f $MARK $MARK.diff
+  python3 tools/extract.py > /dev/null; python3 tools/bodyx.py > /dev/null; python3 tools/seqbody.py > /dev/null
+  [ -e build/evidence_$PID.bak ] && mv build/evidence_$PID.bak evidence/$PID.json
+}
+cp "$PATCH" $MARK.diff && echo "$PID $PATCH $(git -C /repo rev-parse HEAD)" > $MARK
+trap 'undo; exit 130' INT TERM HUP
+trap undo EXIT
 git -C /repo apply "$PATCH" || { echo "PATCH-DOES-NOT-APPLY $PATCH"; exit 3; }
-./check $PID $TIER > /tmp/seedtest.out 2>&1; rc=$?
-git -C /repo checkout -- .
-python3 tools/extract.py > /dev/null; python3 tools/bodyx.py > /dev/null; python3 tools/seqbody.py > /dev/null
-cp /tmp/evidence_$PID.bak evidence/$PID.json 2>/dev/null
+GA_SEEDTEST=1 ./check $PID $TIER > /tmp/seedtest.out 2>&1; rc=$?
+undo
 grep -a -E "^VIOLATION|obligations|KNOWN" /tmp/seedtest.out | head -5
 rm -rf replays/$PID
 echo "seedtest $PID $(basename $(dirname $PATCH))/$(basename $PATCH): exit=$rc"
